@@ -19,7 +19,8 @@ def config(tier):
     return {
         'level': 'exploration',
         'cases': 48 if tier == 'quick' else 1200,
-        'budget_s': 57 if tier == 'quick' else 575,
+        'budget_s': 57 if tier == 'quick' else 540,
+        'grace_s': 300,
         'floors': {'cases': 30, 'schedules': 1500, 'distinct_interleavings': 800,
                    'contended_schedules': 500, 'actors_finished': 3000,
                    'stress_rounds': 10, 'exhaustive_scenarios': 5},
@@ -120,7 +121,7 @@ def gen_case(rng, index, tier):
             case['mode'] = 'random'
         case['nrandom'] = 6 if tier == 'quick' else 40
     case['rounds'] = 2 if tier == 'quick' else 6
-    case['max_enum'] = 700 if tier == 'quick' else 8000
+    case['max_enum'] = 700 if tier == 'quick' else 2000
     case['seed'] = rng.getrandbits(30)
     return case
 
